@@ -11,6 +11,8 @@ func checkC09(p *Prog, r *Report) {
 	r.Rule("R1", "the look-up that decides the insertion of a binding and the insertion share one critical section; the single-binding look-up is present")
 	absenceThenInsert(p, ls, r, "R1", F("BindingManager.bindingEntries"), true, 1)
 	r.Rule("R2", "RemoveBinding keeps an entry ⇔ ¬(client address ∧ server feature equal); the per-entity removal keeps ⇔ ¬(client device ∧ client entity equal)")
+	r.Rule("R9", "the single-binding scan compares the server feature of the existing entries with the server feature the new entry is built from (the resolved feature, not the request's address data)")
+	scanContentRule(p, r, "R9", bindMgr, []string{"ServerFeature"})
 	r.Rule("R8", "every hand-written element-wise comparison of two slices of one type compares their lengths for equality: entity addresses are never matched by prefix (shared lint, C20-R6)")
 	sliceEqualityHelpers(p, r, "R8")
 	r.Rule("R7", "every read-modify-write of the binding list reads and stores inside one critical section")
